@@ -21,6 +21,40 @@ def run(ctx) -> None:
     ctx.guard("C19", check)
 
 
+def _modulo_cycle(fv, rn):
+    """result = []; for i in range(n): result.append(L[i % len(L)])  ->  resolved L  (None if the return is not that loop)"""
+    root = fv.alias_root(rn.ast.value, rn.id)
+    if not isinstance(root, ast.Name):
+        return None
+    inits = [n for n in fv.cfg.nodes if n.kind == "stmt" and isinstance(n.ast, (ast.Assign, ast.AnnAssign)) and is_name(n.ast.targets[0] if isinstance(n.ast, ast.Assign) else n.ast.target, root.id)]
+    apps = [cs for cs in fv.calls() if isinstance(cs.call.func, ast.Attribute) and cs.call.func.attr in ("append", "extend", "insert", "pop", "remove", "clear") and is_name(cs.call.func.value, root.id)]
+    if len(inits) != 1 or len(apps) != 1 or apps[0].call.func.attr != "append" or len(apps[0].call.args) != 1:
+        return None
+    iv = inits[0].ast.value
+    if not ((isinstance(iv, ast.List) and not iv.elts) or (isinstance(iv, ast.Call) and call_fname(iv) == "list" and not iv.args)) or fv.cfg.enclosing_loops(inits[0].id):
+        return None
+    app = apps[0]
+    loops = fv.cfg.enclosing_loops(app.node)
+    if len(loops) != 1 or fv.cfg.nodes[loops[0]].kind != "for" or fv.cfg.loop_has_break.get(loops[0]):
+        return None
+    lp = fv.cfg.nodes[loops[0]]
+    it = fv.res.resolve(lp.ast.iter, lp.id)
+    if not (isinstance(it, ast.Call) and call_fname(it) == "range" and len(it.args) == 1 and is_name(it.args[0], "n") and isinstance(lp.ast.target, ast.Name)):
+        return None
+    if fv.controlling(app.node, within=fv.cfg.loop_body[lp.id]):
+        return None
+    # the loop is followed by the return without further changes (checked: single init, single append)
+    raw = app.call.args[0]
+    raw = fv.def_expr(raw, app.node)[0] if isinstance(raw, ast.Name) else raw
+    if not (isinstance(raw, ast.Subscript) and isinstance(raw.slice, ast.BinOp) and isinstance(raw.slice.op, ast.Mod) and is_name(raw.slice.left, lp.ast.target.id)):
+        return None
+    L = fv.res.resolve(raw.value, app.node)
+    m = fv.res.resolve(raw.slice.right, app.node)
+    if not (call_fname(m) == "len" and m.args and key(strip_norm(m.args[0])) == key(strip_norm(L))):
+        return None
+    return L
+
+
 def check(ctx) -> None:
     f = ctx.prog.require_func("get_trough_wells", "C19.guards")
     fv = ctx.fv(f)
@@ -63,7 +97,21 @@ def check(ctx) -> None:
     ok_shape = isinstance(val, ast.Subscript) and isinstance(val.slice, ast.Slice) and val.slice.lower is None and val.slice.step is None and is_name(val.slice.upper, "n") \
         and isinstance(val.value, ast.BinOp) and isinstance(val.value.op, ast.Mult)
     if not ok_shape:
-        ctx.rep.inconclusive("C19.cycle", f"{f.qualname}/idiom", f"result `{show(val)[:80]}` is not the repeat-and-truncate idiom (L * k)[:n]", where=w)
+        L2 = _modulo_cycle(fv, rn)
+        if L2 is None:
+            ctx.rep.inconclusive("C19.cycle", f"{f.qualname}/idiom", f"result `{show(val)[:80]}` is neither the repeat-and-truncate idiom (L * k)[:n] nor the loop [L[i % len(L)] for i in range(n)]", where=w)
+            return
+        L = L2
+        base_ok = is_name(strip_norm(L), "trough_wells")
+        extra = seq_transformers(L)
+        ctx.rep.check(base_ok and not extra, "C19.cycle", f"{f.qualname}/wells", "the cycled list is exactly the given wells",
+                      f"the cycled list is `{show(L)[:80]}`: the given wells are transformed ({extra or 'different origin'}) before cycling - the cycle is not over all given wells in their order", where=w)
+        fl = [(nm, c) for ch in norm_chains(L) for nm, c in ch if nm in ("flatten", "ravel")]
+        orders = [flatten_order(nm, c) for nm, c in fl]
+        ctx.rep.check(bool(fl) and all(o == "F" for o in orders), "C19.cycle", f"{f.qualname}/column-major", "the wells are read column-major ('F')",
+                      f"the wells are flattened with order {orders or 'none'}: a 2-D collection is not read column-major", where=w)
+        ctx.rep.holds("C19.cycle", f"{f.qualname}/list-repeat", "element i is L[i % len(L)] by construction (no list repetition involved)", where=w)
+        ctx.rep.holds("C19.cycle", f"{f.qualname}/repeat-count", "one element is appended for every i in range(n)", where=w)
         return
     a, b = val.value.left, val.value.right
     L, k = (a, b) if is_name(strip_norm(a), "trough_wells") or not is_name(strip_norm(b), "trough_wells") else (b, a)
